@@ -73,7 +73,7 @@ Proof.
   intros h a b seed P. revert seed. induction P as [|x l l' P IH|x y l|l l' l'' P1 IH1 P2 IH2]; intros seed; cbn [fold_left].
   - reflexivity.
   - apply IH.
-  - f_equal. rewrite <- !N.lxor_assoc. f_equal. apply N.lxor_comm.
+  - f_equal. rewrite !N.lxor_assoc. f_equal. apply N.lxor_comm.
   - rewrite IH1. apply IH2.
 Qed.
 
@@ -188,10 +188,10 @@ Section Eq.
       unfold cv in Ecv.
       destruct (isconst_shape a Ha Ca) as [Ea|[ca Ea]]; destruct (isconst_shape b Hb Cb) as [Eb|[cb Eb]];
         rewrite Ea, Eb in *.
-      + left. split; reflexivity.
-      + exfalso. rewrite coeff_cons, mono_eqb_refl in Ecv. inversion NZb; subst. cbn [snd] in *. unfold coeff in Ecv. cbn in Ecv. congruence.
-      + exfalso. rewrite coeff_cons, mono_eqb_refl in Ecv. inversion NZa; subst. cbn [snd] in *. unfold coeff in Ecv. cbn in Ecv. congruence.
-      + right. rewrite !coeff_cons, !mono_eqb_refl in Ecv. subst cb. exists ca. split; reflexivity.
+      + left. split; assumption.
+      + exfalso. rewrite coeff_cons, mono_eqb_refl in Ecv. inversion NZb as [|? ? Hnz _]. cbn [snd] in Hnz. apply Hnz. rewrite <- Ecv. reflexivity.
+      + exfalso. rewrite coeff_cons, mono_eqb_refl in Ecv. inversion NZa as [|? ? Hnz _]. cbn [snd] in Hnz. apply Hnz. rewrite Ecv. reflexivity.
+      + right. rewrite !coeff_cons, !mono_eqb_refl in Ecv. subst cb. exists ca. split; assumption.
   Qed.
 
   Lemma zbranch_iff : forall a b, poly_ok vlt a -> poly_ok vlt b ->
